@@ -240,7 +240,8 @@ pub fn bop_strategy(cols: usize) -> BoxedStrategy<BOp> {
         2 => prop_oneof![3 => line_text(cols), 1 => multi_text(cols)].prop_map(BOp::SetPrefix),
         2 => stpl_strategy().prop_map(BOp::SetStyle),
         1 => (0u64..1000).prop_map(BOp::SetLength),
-        4 => multi_text(cols).prop_map(BOp::Println),
+        // (log text may come with CRLF line ends: println splits it like str::lines)
+        4 => (multi_text(cols), 0u8..6).prop_map(|(t, k)| BOp::Println(if k == 0 { t.replace('\n', "\r\n") } else { t })),
         2 => proptest::collection::vec(line_text(cols), 0..3).prop_map(BOp::Suspend),
         2 => Just(BOp::Reset),
         1 => Just(BOp::Finish),
@@ -403,7 +404,7 @@ pub fn property() -> Property {
             name: "history",
             rule: "one bar on a VTerm of 1..=12 rows x 1..=40 (thorough 200) columns with a random simple template; 0-24 (thorough 40) ops from tick/inc/set_position/set_message/set_prefix/set_style/set_length/println/suspend/reset/finish*/abandon* with texts that are empty, zero-width, multi-line and around multiples of the width; after every flush and after every op the screen must equal printed lines ++ frame and the cursor must be on a fresh line; non-trivial = two painted frames of different height, or a text-only draw followed by a non-empty frame",
             strategy: case_strategy,
-            cases: |t| t.pick(4_000, 800_000),
+            cases: |t| t.pick(12_000, 800_000),
             run: run_bar,
             signature,
             essential: &["shrink", "grow", "wrap", "exact_multiple_of_width", "empty_first_line_frame", "text_only_draw", "frame_after_text_only_draw", "clear", "reset", "log_wraps"],
@@ -418,7 +419,7 @@ pub fn property() -> Property {
                     .prop_map(|(bar, hz, burn, step_ms)| LimitedCase { bar, hz, burn, step_ms })
                     .boxed()
             },
-            cases: |t| t.pick(3_000, 600_000),
+            cases: |t| t.pick(9_000, 600_000),
             run: run_limited,
             signature: limited_signature,
             essential: &["ordinary_draw_skipped", "forced_op_after_skipped_draw"],
